@@ -19,10 +19,15 @@ EXTRACTORS = ["liberrors", "resolvegen"]
 
 # minimal inputs per lexical diagnostic, used to shrink a replay
 MINIMAL = {
-    "BAD_IDENTIFIER": (b"SCHEMA s;\nENTITY _abc;\nEND_ENTITY;\nEND_SCHEMA;\n", ["_abc"]),
-    "UNEXPECTED_CHARACTER": (b"SCHEMA s; $\nEND_SCHEMA;\n", ["$"]),
-    "ENCODED_STRING_BAD_DIGIT": (b"SCHEMA s;\nENTITY a;\n  x : STRING;\nWHERE\n  w : SELF.x = \"0000000z\";\nEND_ENTITY;\nEND_SCHEMA;\n", ["z"]),
-    "ENCODED_STRING_BAD_COUNT": (b"SCHEMA s;\nENTITY a;\n  x : STRING;\nWHERE\n  w : SELF.x = \"00000\";\nEND_ENTITY;\nEND_SCHEMA;\n", ["5"]),
+    "BAD_IDENTIFIER": [(b"SCHEMA s;\nENTITY _abc;\nEND_ENTITY;\nEND_SCHEMA;\n", ["_abc"])],
+    "UNEXPECTED_CHARACTER": [(b"SCHEMA s; $\nEND_SCHEMA;\n", ["$"])],
+    "ENCODED_STRING_BAD_DIGIT": [(b"SCHEMA s;\nENTITY a;\n  x : STRING;\nWHERE\n  w : SELF.x = \"0000000z\";\nEND_ENTITY;\nEND_SCHEMA;\n", ["z"])],
+    "ENCODED_STRING_BAD_COUNT": [(b"SCHEMA s;\nENTITY a;\n  x : STRING;\nWHERE\n  w : SELF.x = \"00000\";\nEND_ENTITY;\nEND_SCHEMA;\n", ["5"])],
+    "DUPLICATE_DECL": [
+        (b"SCHEMA s;\nENTITY a;\n  w : INTEGER;\n  w : REAL;\nEND_ENTITY;\nEND_SCHEMA;\n", ["w", "2"]),
+        (b"SCHEMA s;\nENTITY b;\n  w : NUMBER;\nEND_ENTITY;\nENTITY d SUBTYPE OF (b);\n  SELF\\b.w : INTEGER;\n  SELF\\b.w : REAL;\nEND_ENTITY;\nEND_SCHEMA;\n", ["w", "5"]),
+        (b"SCHEMA src;\nENTITY alpha;\nEND_ENTITY;\nENTITY beta;\nEND_ENTITY;\nEND_SCHEMA;\nSCHEMA s;\nUSE FROM src\n  (alpha AS gamma,\n   beta AS gamma);\nEND_SCHEMA;\n", ["gamma", "8"]),
+    ],
 }
 
 
@@ -44,7 +49,7 @@ def observed(r, table):
     return {"status": X.status_of(r["rc"]), "diags": d, "other": other}
 
 
-def check_case_oracle(case, sw, ob, table, baseline=None):
+def check_case_oracle(case, sw, ob, table, baseline=None, base_ob=None):
     """C20's statement on what check-express printed for one (case, switches).  Returns (key, what) or None."""
     path = case.path()
     if ob["status"] in ("abort", "timeout") or ob["status"].startswith("signal"):
@@ -55,6 +60,16 @@ def check_case_oracle(case, sw, ob, table, baseline=None):
         return None        # a crash that does not depend on the switches is C06's business, not C20's
     if ob["status"] == "2" and sw:
         return None        # usage: unknown class name — nothing printed about the file
+    if sw and base_ob is not None and base_ob["status"] in ("0", "1"):
+        cmd = f"check-express {' '.join('-' + o + ' ' + n for o, n in sw)} {path}"
+        if ob["status"] != base_ob["status"]:
+            return ("switch-verdict:" + sw[-1][1],
+                    f"`{cmd}` exits {ob['status']}, without the switch the exit status is {base_ob['status']} "
+                    f"(errors without the switch: {[(d[0], d[3]) for d in base_ob['diags'] if d[4]][:3]})")
+        ea = sorted((d[0], d[3]) for d in ob["diags"] if d[4] and d[0] not in X.ORDER_DEPENDENT)
+        eb = sorted((d[0], d[3]) for d in base_ob["diags"] if d[4] and d[0] not in X.ORDER_DEPENDENT)
+        if ea != eb:
+            return ("switch-errors:" + sw[-1][1], f"`{cmd}` prints the ERROR diagnostics {ea[:4]}, without the switch {eb[:4]}")
     for (code, f, line, msg, is_err) in ob["diags"]:
         if f is not None and f != path:
             return (f"file:{code}", f"{code} is attributed to file {f!r}, the input is {path!r}")
@@ -122,7 +137,7 @@ def run_cases(ctx, b, model, table, cases, sets_of, label):
             ctx.hist("switches", " ".join("-" + o for o, _ in sw) or "none")
             for d in ob["diags"]:
                 ctx.hist("diagnostic printed", d[0])
-            v = check_case_oracle(c, sw, ob, table, baseline=(obs[()]["status"] if () in obs else None))
+            v = check_case_oracle(c, sw, ob, table, baseline=(obs[()]["status"] if () in obs else None), base_ob=obs.get(()))
             if v:
                 n_viol += 1
                 report_violation(ctx, b, table, c, sw, ob, v)
@@ -154,13 +169,14 @@ def report_violation(ctx, b, table, case, sw, ob, v):
     # shrink: the canonical minimal input of that diagnostic, if it fails the same way
     code = key.split(":", 1)[1] if key.startswith("arg:") else None
     if code in MINIMAL:
-        mdata, margs = MINIMAL[code]
-        mc = X.Case("min", mdata, [], case.cls, [(code, margs)], "reject")
-        r = X.run_tool(b, "check-express", mc, sw, ctx.work)
-        mob = observed(r, table)
-        mv = check_case_oracle(mc, sw, mob, table)
-        if mv and mv[0] == key:
-            data, ob, what, case = mdata, mob, mv[1], mc
+        for mdata, margs in MINIMAL[code]:
+            mc = X.Case("min", mdata, [], case.cls, [(code, margs)], "reject")
+            r = X.run_tool(b, "check-express", mc, sw, ctx.work)
+            mob = observed(r, table)
+            mv = check_case_oracle(mc, sw, mob, table)
+            if mv and mv[0] == key:
+                data, ob, what, case = mdata, mob, mv[1], mc
+                break
     elif key == "switch-abort":
         mc = X.Case("min", b"SCHEMA s;\nEND_SCHEMA;\n", [], "valid", [], "accept")
         r = X.run_tool(b, "check-express", mc, sw[-1:], ctx.work)
@@ -227,15 +243,39 @@ def run(ctx):
             sets_cache[c.name] = s
         return sets_cache[c.name]
 
+    # an extractor that no longer recognises the source is answered with the widest sweep, not with a shrug
+    escalate = any(n == "extract" for n, _ in ctx.broken) or not proof_ok
+    big = (not quick) or escalate
     streams = []
     cc = corpus_cases()
     if cc:
         streams.append(("corpus", cc))
+    # every class name the table carries x {-w,-i} on one schema per guarded diagnostic (+ a valid one)
+    base = G.gen_schema(ctx.rng, 4)
+    sweep = [X.make_case("sw_valid", base, "valid", [], "accept")]
+    for mn in ("select_cycle", "sub_cycle", "entity_as_type", "undef_sub", "wrong_argc", "small_real"):
+        for _ in range(20):
+            f = G.mutate(base, mn, ctx.rng)
+            if f is not None:
+                sweep.append(X.make_case("sw_" + mn, f.schema, f.cls, f.expect, f.verdict, f.warn, f.note))
+                break
+            base2 = G.gen_schema(ctx.rng, 5)
+            f = G.mutate(base2, mn, ctx.rng)
+            if f is not None:
+                sweep.append(X.make_case("sw_" + mn, f.schema, f.cls, f.expect, f.verdict, f.warn, f.note))
+                break
+    sweep.append(X.gen_graph_case(ctx.rng, "sw_gsel", "sel", n=3, outside=True))
+    sweep.append(X.gen_graph_case(ctx.rng, "sw_gsub", "sub", n=3, outside=True))
+    all_sw = [[]] + [[(o, c)] for c in table.all_classes() for o in ("w", "i")]
+    for c in sweep:
+        sets_cache[c.name] = all_sw
+    streams.append(("class-sweep", sweep))
     streams.append(("generated", X.gen_cases(ctx.rng, 12 if quick else 120, 6)))
+    streams.append(("multi-schema", X.gen_file_cases(ctx.rng, 6 if quick else 60)))
     graphs = []
-    for k in range(30 if quick else 400):
-        graphs.append(X.gen_graph_case(ctx.rng, f"gs{k}", "sub"))
-        graphs.append(X.gen_graph_case(ctx.rng, f"gl{k}", "sel"))
+    for k in range(30 if not big else 400):
+        graphs.append(X.gen_graph_case(ctx.rng, f"gs{k}", "sub", outside=(k % 3 == 0)))
+        graphs.append(X.gen_graph_case(ctx.rng, f"gl{k}", "sel", outside=(k % 3 == 0)))
     streams.append(("cycle-graphs", graphs))
     first_corr = None
     for label, cases in streams:
@@ -259,7 +299,7 @@ def run(ctx):
         ctx.broken.append(("correspondence Express.Diag/Lex/Resolve vs check-express",
                            f"{c.name} ({c.cls}; {c.note}) switches {sw}: check-express status {ob['status']} {a} vs model {m['status']} {bb}; "
                            f"input: {c.data.decode('latin-1')!r} (the oracle finds the property intact on it)"))
-    ex = next((c for c in streams[-2][1] if c.cls == "leading-underscore"), None)
+    ex = next((c for lab, cs in streams if lab == "generated" for c in cs if c.cls == "leading-underscore"), None)
     if ex:
         ctx.sample({"class": ex.cls, "input": ex.data.decode("latin-1")[:400], "expect": ex.expect})
     ctx.cov["rule"] = ("grammar-directed valid single-schema files (types, enumerations, selects, functions, entity DAGs with explicit/implicit "
@@ -282,8 +322,9 @@ def replay(ctx, path):
     res = X.run_tool(b, "check-express", c, sw, ctx.work)
     ob = observed(res, table)
     ctx.count(1, key=(c.data, tuple(sw)))
-    base = observed(X.run_tool(b, "check-express", c, [], ctx.work), table)["status"] if sw else None
-    v = check_case_oracle(c, sw, ob, table, baseline=base)
+    base_ob = observed(X.run_tool(b, "check-express", c, [], ctx.work), table) if sw else None
+    base = base_ob["status"] if base_ob else None
+    v = check_case_oracle(c, sw, ob, table, baseline=base, base_ob=base_ob)
     if v:
         report_violation(ctx, b, table, c, sw, ob, v)
     elif sw and sw[-1][0] == "w":
